@@ -225,9 +225,89 @@ fn scale(w: &mut Worker) {
     }
 }
 
+/// The same template bound twice in one run with the variable changed in between - by a command
+/// that writes the variable table directly, by an assignment, by set_by_name, as a for/in loop
+/// variable, as a function argument. What is bound the second time is the value of that moment.
+fn rebinding(w: &mut Worker) {
+    let values: [&str; 6] = ["W", "", "p q", "a b c", "\\", " x  y "];
+    let words = |v: &str| -> Vec<String> { v.split(' ').filter(|x| !x.is_empty()).map(|x| x.to_string()).collect() };
+    let got: Rc<RefCell<Vec<Vec<String>>>> = Rc::new(RefCell::new(vec![]));
+    let mut ctx = sdk_context();
+    {
+        let g = got.clone();
+        ctx.commands
+            .set(fn_command("capture", move |c| {
+                g.borrow_mut().push(c.arguments.clone());
+                CommandResult::Continue(None)
+            }))
+            .unwrap();
+        // writes a variable without going through an output variable
+        ctx.commands
+            .set(fn_command("poke", move |c| {
+                if c.arguments.len() == 2 {
+                    c.variables.insert(c.arguments[0].clone(), c.arguments[1].clone());
+                } else if c.arguments.len() == 1 {
+                    c.variables.remove(&c.arguments[0]);
+                }
+                CommandResult::Continue(None)
+            }))
+            .unwrap();
+    }
+    let q = |v: &str| render::render_arg(v, true);
+    for a in values {
+        for b in values {
+            let mut scripts: Vec<(&str, String, String)> = vec![
+                ("direct-write", format!("capture %{{w}} ${{w}}\npoke w {}\ncapture %{{w}} ${{w}}", q(b)), "w".into()),
+                ("assignment", format!("capture %{{w}} ${{w}}\nw = set {}\ncapture %{{w}} ${{w}}", q(b)), "w".into()),
+                ("set_by_name", format!("capture %{{w}} ${{w}}\nset_by_name w {}\ncapture %{{w}} ${{w}}", q(b)), "w".into()),
+                ("loop-variable", format!("arr = array {} {}\nfor w in ${{arr}}\ncapture %{{w}} ${{w}}\nend\nrelease ${{arr}}", q(a), q(b)), "w".into()),
+                ("function-argument", format!("fn f\ncapture %{{1}} ${{1}}\nend\nf {}\nf {}", q(a), q(b)), "1".into()),
+                ("removed", "capture %{w} ${w}\npoke w\ncapture %{w} ${w}".to_string(), "w".into()),
+            ];
+            // `set ""` yields no value: the variable becomes undefined, which binds like the empty text
+            for (how, script, _name) in scripts.drain(..) {
+                if !w.take() {
+                    continue;
+                }
+                let cj = json!({"kind": "rebinding", "how": how, "first": a, "second": b, "script": script});
+                w.begin(|| cj.clone());
+                w.add_transitions(1);
+                got.borrow_mut().clear();
+                let mut c = ctx.clone();
+                c.variables.insert("w".into(), a.to_string());
+                c.variables.insert("v".into(), "V".to_string());
+                let (env, _o, _e, _h) = quiet_env();
+                let r = guarded(|| runner::run_script(&script, c, Some(env)));
+                let second = if how == "removed" { "" } else { b };
+                let mut exp_last: Vec<String> = words(second);
+                exp_last.push(second.to_string());
+                let mut exp_first: Vec<String> = words(a);
+                exp_first.push(a.to_string());
+                match r {
+                    Err(p) => w.fail("rebinding:panic", &p, cj),
+                    Ok(Err(e)) => w.fail("rebinding:run-failed", &format!("{}: {}", how, e), cj),
+                    Ok(Ok(_)) => {
+                        let g = got.borrow().clone();
+                        if g.len() != 2 {
+                            w.fail("rebinding:capture-count", &format!("{}: capture ran {} times", how, g.len()), cj);
+                        } else if g[0] != exp_first {
+                            w.fail(&format!("rebinding:{}:first-binding", how), &format!("{} with {:?}: first binding received {:?}, expected {:?}", how, a, g[0], exp_first), cj);
+                        } else if g[1] != exp_last {
+                            w.fail(&format!("rebinding:{}:second-binding", how), &format!("{} from {:?} to {:?}: second binding received {:?}, expected {:?}", how, a, second, g[1], exp_last), cj);
+                        } else {
+                            w.pass(true, hash64(&("rebinding", how, g[1].len())));
+                        }
+                    }
+                }
+            }
+        }
+    }
+}
+
 pub fn worker(w: &mut Worker) {
     let tier = w.tier;
     scale(w);
+    rebinding(w);
     let mut rig = Rig::new();
     let mut templates: Vec<Tpl> = vec![];
     for t in Strings::new(&PIECES[..], 1, 3) {
@@ -389,6 +469,9 @@ pub fn replay(case: &Value) -> Result<String, String> {
     if let Some(r) = scale_replay(case) {
         return r;
     }
+    if case["kind"].as_str() == Some("rebinding") {
+        return Ok("re-run the check: the case is rebuilt from its values (first, second, how) by the generator".to_string());
+    }
     let args: Vec<String> = case["written"]
         .as_array()
         .ok_or("no written")?
@@ -420,7 +503,7 @@ pub fn crash_sig(_case: &Value, kind: &str) -> String {
     kind.to_string()
 }
 
-pub const RULE: &str = "every template of 1..3 pieces from {a, 'b c', e-acute, ${v}, ${w}, ${u} (undefined), ${a.b}, ${s::e1} (name with '::', a digit and a non-ASCII letter), \\${v}} and the whole-argument forms %{v} %{w} %{u}, in three argument positions (alone, first of two, last of three after a spread), x every value of v (undefined, every string up to the length bound over {a SP \" \\ # $ { } % LF = e-acute TAB CR NBSP}, 9 special values such as '${w}' and '  ') x 8 values of w (only where the argument list mentions them); bound by runner::run_instruction and observed by a capture command; every template also under the empty environment (no variable defined at all); a second family writes the same templates as script text (plain and quoted) and runs them through run_script. Oracle: one-pass reference substitution; spread = space-separated non-empty words. Non-trivial: the argument list mentions v or w. states = distinct (received count, position, kind) classes; transitions = real bindings. Scale cases: a value of 300/70000 (thorough 1000003) characters made of ${v}, %{w}, backslash, '#' and quote text bound alone, embedded and as an array item (must arrive whole and uninterpreted); 300/3000 (thorough 30000) words spread by %{..} and as many arguments written out on one line";
+pub const RULE: &str = "every template of 1..3 pieces from {a, 'b c', e-acute, ${v}, ${w}, ${u} (undefined), ${a.b}, ${s::e1} (name with '::', a digit and a non-ASCII letter), \\${v}} and the whole-argument forms %{v} %{w} %{u}, in three argument positions (alone, first of two, last of three after a spread), x every value of v (undefined, every string up to the length bound over {a SP \" \\ # $ { } % LF = e-acute TAB CR NBSP}, 9 special values such as '${w}' and '  ') x 8 values of w (only where the argument list mentions them); bound by runner::run_instruction and observed by a capture command; every template also under the empty environment (no variable defined at all); a second family writes the same templates as script text (plain and quoted) and runs them through run_script. Oracle: one-pass reference substitution; spread = space-separated non-empty words. Non-trivial: the argument list mentions v or w. states = distinct (received count, position, kind) classes; transitions = real bindings. Scale cases: a value of 300/70000 (thorough 1000003) characters made of ${v}, %{w}, backslash, '#' and quote text bound alone, embedded and as an array item (must arrive whole and uninterpreted); 300/3000 (thorough 30000) words spread by %{..} and as many arguments written out on one line. Re-binding family: the templates %{w} ${w} bound twice in one run with the variable changed in between by a command writing the variable table directly, by an assignment, by set_by_name, as a for/in loop variable, as a function argument, or removed (6 x 6 values): each binding shows the value of its moment";
 pub const ASSUMPTIONS: &[&str] = &["spread values containing a double quote or '#' are only checked for 'no panic' (their grouping is pinned by the repository's own tests, not by the statement)", "arguments that mix text with %{..} are outside the property's template domain"];
 pub const EXHAUSTIVE: bool = true;
 pub const WALL_CAP_S: (u64, u64) = (50, 1500);
